@@ -1,0 +1,69 @@
+//go:build verif
+// +build verif
+
+package datastore
+
+// Verification hooks (build tag "verif", add-only): let an external harness run the real
+// version-resolution code over synthetic version DAGs without opening a store.
+
+import (
+	"fmt"
+
+	"github.com/janelia-flyem/dvid/dvid"
+	"github.com/janelia-flyem/dvid/storage"
+)
+
+// VerifEntry is one per-version entry of a datum as the store would return it.
+type VerifEntry struct {
+	V         dvid.VersionID
+	Tombstone bool
+	ID        uint64 // identifies the value
+}
+
+// VerifFindMatch builds a repo manager holding one repo whose DAG has the given ordered parent
+// lists, files the entries into a kvVersions map exactly as VersionedCtx.VersionedKeyValue does
+// (later duplicates overwrite), and runs repoManager.findMatch for version v.
+func VerifFindMatch(parents map[dvid.VersionID][]dvid.VersionID, entries []VerifEntry, v dvid.VersionID) (foundV dvid.VersionID, id uint64, found bool, err error) {
+	m := &repoManager{
+		repos:         make(map[dvid.UUID]*repoT),
+		versionToUUID: make(map[dvid.VersionID]dvid.UUID),
+		uuidToVersion: make(map[dvid.UUID]dvid.VersionID),
+	}
+	r := &repoT{dag: &dagT{nodes: make(map[dvid.VersionID]*nodeT)}}
+	add := func(ver dvid.VersionID) {
+		if _, ok := r.dag.nodes[ver]; ok {
+			return
+		}
+		uuid := dvid.UUID(fmt.Sprintf("%032x", uint32(ver)))
+		r.dag.nodes[ver] = &nodeT{uuid: uuid, version: ver}
+		m.versionToUUID[ver] = uuid
+		m.uuidToVersion[uuid] = ver
+		m.repos[uuid] = r
+	}
+	add(v)
+	for c, ps := range parents {
+		add(c)
+		for _, p := range ps {
+			add(p)
+		}
+	}
+	for c, ps := range parents {
+		r.dag.nodes[c].parents = append([]dvid.VersionID{}, ps...)
+	}
+	kvv := make(kvVersions, len(entries))
+	ids := make(map[*storage.KeyValue]uint64)
+	for _, e := range entries {
+		marker := byte(storage.MarkData)
+		if e.Tombstone {
+			marker = storage.MarkTombstone
+		}
+		kv := &storage.KeyValue{K: storage.Key{marker}}
+		ids[kv] = e.ID
+		kvv[e.V] = kvvNode{kv: kv}
+	}
+	kv, fv, err := m.findMatch(kvv, v)
+	if err != nil || kv == nil {
+		return fv, 0, false, err
+	}
+	return fv, ids[kv], true, nil
+}
